@@ -163,6 +163,21 @@ class ProxyHandler(RequestHandler):
                 response.status,
             )
 
+            # The client decoded a text body with the charset declared in the
+            # meta, and the server side encodes str bodies as UTF-8. Restore the
+            # original bytes so the body still matches the relayed meta.
+            charset = response.charset.strip("\"'")
+            if isinstance(response.body, str) and charset.lower() not in (
+                "utf-8",
+                "utf8",
+            ):
+                return GeminiResponse(
+                    status=response.status,
+                    meta=response.meta,
+                    body=response.body.encode(charset),
+                    url=response.url,
+                )
+
             # Pass through the response as-is
             return response
 
